@@ -36,6 +36,7 @@ LINES = """
 xm = [xlen]
 xs = [xtime]
 xg = [xmass]
+[xspeed] = [xlen] / [xtime]
 kila- = 1000 = K-
 mila- = 1 / 1000
 foo = 3 * xm = fo
@@ -76,7 +77,7 @@ spd = 9 * xm / xs
 """.strip().splitlines()
 
 REDEF = ("cr", "cs", "cu")
-DEFS = ["newu = 2 * foo = nu", "newv = 5 * xs / xg", "deca- = 10 = D-", "@alias foo = fooz", "neww = 3 * newu", "hexa- = 16"]
+DEFS = ["newu = 2 * foo = nu", "newv = 5 * xs / xg", "deca- = 10 = D-", "@alias foo = fooz", "neww = 3 * newu", "hexa- = 16", "megax- = 1000000 = Mx-"]
 UNITS = ["xm", "xs", "xg", "foo", "bar", "baz", "qux", "spd", "gfoo", "gbar", "gbaz", "kilafoo", "milabaz", "fo", "qx", "foos", "Kfo", "newu", "nu", "newv", "neww", "decaxm", "fooz", "Dfo",
          "hexabar", "kilanewu", "nope", "kilakilafoo"]
 EXPRS = ["3 foo / baz", "2 kilafoo * xs", "bar ** 2", "1 / spd", "5 newu", "2 foo + 3 bar", "4 Kfo", "7 fooz / xs", "xm * xs / xg"]
@@ -104,6 +105,10 @@ class State:
         return (tuple(self.defs), self.system, tuple(self.contexts), tuple(self.group_edits))
 
 
+def _cp_rule(ureg, value, p):
+    return value * p * ureg.Quantity(1, "xg * xs / xm")
+
+
 def build(lines, state: State):
     import pint
 
@@ -111,6 +116,10 @@ def build(lines, state: State):
     aliases = [d for d in state.defs if d.startswith("@alias")]
     # definitions are part of the text a fresh registry is built from
     ureg = pint.UnitRegistry(text + [d for d in state.defs if not d.startswith("@alias")] + aliases, non_int_type=Fraction)
+    # a context added through the Python API, written with a derived dimension name (normalised by pint when it is first activated)
+    cp = pint.Context("cp", defaults={"p": Fraction(3)})
+    cp.add_transformation("[xspeed]", "[xmass]", _cp_rule)
+    ureg.add_context(cp)
     for g, what, u in state.group_edits:
         grp = ureg.get_group(g)
         (grp.add_units if what == "add" else grp.remove_units)(u)
@@ -334,7 +343,7 @@ def _ops_strategy(units, exprs, contexts, systems, groups):
         st.tuples(st.just("Q"), st.just("members"), st.sampled_from(systems), st.just("system")),
     )
     change = st.one_of(
-        st.tuples(st.just("S"), st.just("define"), st.integers(0, 5)),
+        st.tuples(st.just("S"), st.just("define"), st.integers(0, 6)),
         st.tuples(st.just("S"), st.just("enable"), st.sampled_from(contexts), st.sampled_from([0, 0, 7])),
         st.tuples(st.just("S"), st.just("disable")),
         st.tuples(st.just("S"), st.just("system"), st.sampled_from(systems + [None])),
@@ -367,7 +376,18 @@ def _ops_strategy(units, exprs, contexts, systems, groups):
     # motif: an activation that fails (cu needs newu), the missing unit is defined, the same activation is repeated and probed
     retry = st.tuples(st.lists(st.one_of(query, change), max_size=3), st.lists(probe, max_size=2), st.lists(probe, min_size=2, max_size=5), st.lists(st.one_of(query, query, change), max_size=5)).map(
         lambda t: list(t[0]) + [("S", "enable", "cu", 0)] + list(t[1]) + [("S", "define", 0), ("S", "enable", "cu", 0)] + list(t[2]) + [("S", "disable")] + list(t[3]))
-    return st.one_of(free, free, motif, late(), retry).map(lambda ops: {"ops": [list(o) for o in ops]})
+    # motif: the default system is switched (also off) between identical questions about base units
+    bq = st.lists(st.one_of(st.tuples(st.just("Q"), st.just("base"), dep), st.tuples(st.just("Q"), st.just("to_base"), x, dep), st.tuples(st.just("Q"), st.just("held"), st.integers(0, 2))), min_size=1, max_size=3)
+    sysmotif = st.tuples(bq, st.sampled_from(systems + [None, None, ""]), st.sampled_from(systems + [None, None])).map(
+        lambda t: list(t[0]) + [("S", "system", t[1])] + list(t[0]) + [("S", "system", t[2])] + list(t[0]))
+    # motif: the API context cp is used with a keyword parameter, possibly after an earlier plain activation
+    cq = [("Q", "convert", 2, "spd", "xg"), ("Q", "to", 3, "spd", "qux")]
+    cpmotif = st.sampled_from([[("S", "enable", "cp", 7)] + cq + [("S", "disable")], [("S", "enable", "cp", 0)] + cq + [("S", "disable"), ("S", "enable", "cp", 7)] + cq,
+                               [("S", "enable", "ca", 0), ("S", "enable", "cp", 0)] + cq + [("S", "disable"), ("S", "disable"), ("S", "enable", "cp", 7)] + cq])
+    # motif: to_compact before and after a power-of-1000 prefix is defined
+    kq = [("Q", "compact", 1000, "kilafoo"), ("Q", "compact", 1000, "kilafoo"), ("Q", "format", 1000, "kilafoo", "#~")] if False else [("Q", "compact", 1000, "kilafoo"), ("Q", "compact", 3, "bar")]
+    compactmotif = st.just(kq + [("S", "define", 6)] + kq + [("Q", "compact", 1000, "megaxfoo")])
+    return st.one_of(free, free, motif, late(), retry, sysmotif, cpmotif, compactmotif).map(lambda ops: {"ops": [list(o) for o in ops]})
 
 
 def case_history(case, col=None):
@@ -377,7 +397,7 @@ def case_history(case, col=None):
 
 
 def run_history_task(task, tier, seed, col):
-    strat = _ops_strategy(UNITS + ["foo", "bar", "baz", "gfoo", "kilafoo"], EXPRS, ["ca", "cb", "cr", "cs", "cr", "cs", "cu"], ["sysx", "sysy"], ["ga", "gb", "root"])
+    strat = _ops_strategy(UNITS + ["foo", "bar", "baz", "gfoo", "kilafoo"], EXPRS, ["ca", "cb", "cr", "cs", "cr", "cs", "cu", "cp"], ["sysx", "sysy"], ["ga", "gb", "root"])
     hyp_search(col, strat, lambda c: case_history(c, col), max_examples=220 if tier == "quick" else 5000, seed=seed * 211 + task["shard"], shrink_budget_s=90)
 
 
